@@ -98,7 +98,12 @@ def discharge(hyps, goal, timeout_ms=None, want_model=False, portfolio=True, ful
             if r.status == "proved":
                 return r
     t0 = time.time()
-    # first attempt for VCs with nonlinear terms: nonlinear products abstracted by an uninterpreted function (sound for `unsat`:
+    # quick first attempt: E-matching only with the explicit patterns
+    s0 = _solver(hyps, goal, 1500)
+    s0.set("smt.mbqi", False)
+    if s0.check() == z3.unsat:
+        return Result("proved", "z3-5.1", time.time() - t0)
+    # next attempt for VCs with nonlinear terms: nonlinear products abstracted by an uninterpreted function (sound for `unsat`:
     # the abstraction only weakens the theory); decides goals that hold by congruence
     # (the rewrite also drops the explicit quantifier patterns, so this attempt runs with z3's inferred
     # triggers; MBQI on first -- fastest in practice -- then E-matching only)
@@ -171,6 +176,15 @@ def _run_external(cmd, smt, timeout_ms):
         return first if first in ("sat", "unsat") else "unknown"
     except (subprocess.TimeoutExpired, OSError):
         return "unknown"
+
+
+def contradictory(hyps, timeout_ms=1000):
+    """single bounded query: are the hypotheses provably contradictory?"""
+    s = z3.Solver()
+    s.set("timeout", timeout_ms)
+    for h in hyps:
+        s.add(h)
+    return s.check() == z3.unsat
 
 
 def satisfiable(hyps, timeout_ms=5000):
